@@ -42,6 +42,17 @@ func randomScript(r *rand.Rand, id int, big bool) *Script {
 		return sc
 	}
 	switch id % 16 {
+	case 3: // a body limit, and responses whose tail beyond it arrives late: the hit lasts until the body is read to its end, and
+		// nothing of the attack is left behind reading it
+		sc.TailMs = []int{5, 40, 300}[id/16%3]
+		sc.Workers = 1 + r.Intn(2)
+		sc.MaxWorkers = sc.Workers + r.Intn(2)
+		for i, n := 0, 3+r.Intn(4); i < n; i++ {
+			sc.Waits = append(sc.Waits, []int{0, 1, 3}[r.Intn(3)])
+		}
+		sc.Lat, sc.Cons = []int{r.Intn(3)}, []int{0}
+		sc.StopCall = len(sc.Waits) + 1
+		return sc
 	case 7: // a pacer that takes its time to answer: the wait still counts from the moment it was returned
 		sc.PaceLatUs = []int{300, 5000, 60000}[id/16%3]
 		sc.Workers, sc.MaxWorkers = 1+r.Intn(3), []int{-1, 2, 4}[r.Intn(3)]
